@@ -150,6 +150,13 @@ def judge_roundtrip(spec, cloud, overrides, tmp):
         if isinstance(v, float) and not same("", fa.get(p), v):
             return [("bare_number_unchanged", v, fa.get(p))]
     fn = os.path.join(tmp, "c.toml")
+    # (a write that fails part-way - nothing to serialise - to the SAME file name comes first: the valid write that follows
+    # must not find anything in its way)
+    for notcfg in (None, "not a configuration"):
+        try:
+            create_toml(fn, notcfg)
+        except Exception:
+            pass
     try:
         create_toml(fn, c)
         c2 = config_from_toml(fn)
